@@ -226,7 +226,7 @@ var longSizes = []int{0, 1, 127, 128, 16383, 16384, 65535, 65536, 65537, 65600, 
 func longStrings(c *explore.Ctx) {
 	p := Protocols[c.Choose(len(Protocols))]
 	n := longSizes[c.Choose(len(longSizes))]
-	which := c.Choose(4) // string, binary, both, list element
+	which := c.Choose(4)  // string, binary, both, list element
 	reader := c.Choose(3) // Unmarshal (bytes.Reader), Decoder over a plain io.Reader, Decoder over one-byte reads
 	v := longT{A: 7, B: -9, C: "tail", D: 3}
 	fill := func(ch byte) string { return strings.Repeat(string(ch), n) }
@@ -317,6 +317,21 @@ var histValues = []histT{
 	{},
 }
 
+type histEnumT struct {
+	A int32  `thrift:"1"`
+	S string `thrift:"2"`
+	E int64  `thrift:"3,enum"`
+}
+
+// values whose encoding fails after something has already been written
+var histFailing = []struct {
+	name string
+	v    any
+}{
+	{"an enum beyond 32 bits behind two other fields", histEnumT{A: 7, S: "written before the failure", E: 1 << 40}},
+	{"a list whose third struct holds an enum beyond 32 bits", []histEnumT{{A: 1}, {A: 2, S: "ok"}, {E: -1 << 40}}},
+}
+
 func marshalHistories(c *explore.Ctx) {
 	n := 2 + c.Choose(2)
 	type call struct {
@@ -327,11 +342,15 @@ func marshalHistories(c *explore.Ctx) {
 	}
 	var calls []call
 	for i := 0; i < n; i++ {
-		calls = append(calls, call{p: c.Choose(len(Protocols)), v: c.Choose(len(histValues))})
+		calls = append(calls, call{p: c.Choose(len(Protocols)), v: c.Choose(len(histValues) + len(histFailing))})
 	}
 	desc := func() string {
 		var parts []string
 		for _, k := range calls {
+			if k.v >= len(histValues) {
+				parts = append(parts, fmt.Sprintf("Marshal(%s, a value that cannot be encoded: %s)", Protocols[k.p].Name, histFailing[k.v-len(histValues)].name))
+				continue
+			}
 			parts = append(parts, fmt.Sprintf("Marshal(%s, value %d)", Protocols[k.p].Name, k.v))
 		}
 		return strings.Join(parts, "; ")
@@ -339,6 +358,17 @@ func marshalHistories(c *explore.Ctx) {
 	for i := range calls {
 		k := &calls[i]
 		var err error
+		if k.v >= len(histValues) {
+			// a call that fails after part of the value has been written
+			f := histFailing[k.v-len(histValues)]
+			if pv, ps := explore.Catch(func() { _, err = thrift.Marshal(Protocols[k.p].P, f.v) }); pv != nil {
+				c.Fail("history:Marshal:"+ps, "Marshal of %s panics (%v) in %s", f.name, pv, desc())
+				return
+			} else if err == nil {
+				c.Fail("history:unencodable-value-accepted", "Marshal of %s returns no error in %s", f.name, desc())
+			}
+			continue
+		}
 		if pv, ps := explore.Catch(func() { k.b, err = thrift.Marshal(Protocols[k.p].P, histValues[k.v]) }); pv != nil || err != nil {
 			c.Fail("history:Marshal:"+ps, "Marshal fails (%v %v) in %s", pv, err, desc())
 			return
@@ -347,6 +377,9 @@ func marshalHistories(c *explore.Ctx) {
 		// every earlier payload still holds what it held when it was returned, and still decodes to its value
 		for j := 0; j <= i; j++ {
 			e := &calls[j]
+			if e.v >= len(histValues) {
+				continue
+			}
 			if !bytes.Equal(e.b, e.dup) {
 				c.Fail("history:payload-changed-by-a-later-Marshal", "the bytes returned by call %d changed after call %d in: %s", j+1, i+1, desc())
 				return
